@@ -89,8 +89,12 @@ def rand_file(rng):
                                       MetaMessage('time_signature', numerator=7, denominator=16, clocks_per_click=12, time=d),
                                       MetaMessage('key_signature', key='F#m', time=d),
                                       MetaMessage('smpte_offset', frame_rate=25, hours=1, time=d))))
-            elif r < 0.4:
+            elif r < 0.38:
                 tr.append(Message('sysex', data=(1, 2), time=d))
+            elif r < 0.42:
+                # meta events of a type the library does not know, also on the tick of their predecessor
+                from mido import UnknownMetaMessage
+                tr.append(UnknownMetaMessage(rng.choice((0x0A, 0x60, 0x7D)), data=(1, 2), time=rng.choice((0, 0, d))))
             else:
                 tr.append(Message('note_on', note=rng.randrange(128), channel=ti, time=d))
         if rng.random() < 0.7:
